@@ -1,5 +1,5 @@
 """Property -> rule list. Each rule: (id, text, function(ctx, report))."""
-import rules_cmd, rules_expire, rules_conn, rules_auth, rules_tx, rules_db, rules_zset, rules_rdb, rules_aof, rules_block
+import rules_cmd, rules_expire, rules_conn, rules_auth, rules_tx, rules_db, rules_zset, rules_rdb, rules_aof, rules_block, rules_pubsub
 from shared import SERVER
 
 
@@ -92,6 +92,17 @@ def _c13():
     ]
 
 
+def _c14():
+    return [
+        ("R-PS-PAIR", "per-connection subscription sets and the global channel/pattern maps are updated together with the same connection id; emptied sets and SubscriberInfo are removed; unsubscribe_all sweeps both maps", rules_pubsub.rule_pair),
+        ("R-PS-COUNT", "the acknowledged count is channels.len()+patterns.len() of the connection's entry taken after the update", rules_pubsub.rule_count),
+        ("R-PS-REPLYCOUNT", "PUBLISH replies with the length of the receiver list it then delivers to", rules_pubsub.rule_replycount),
+        ("R-PS-DEDUP", "receivers are collected once per matching subscription (not de-duplicated by connection); pattern receivers only under a match test", rules_pubsub.rule_dedup),
+        ("R-PS-CLOSE", "every connection observed Closing is queued for removal", rules_pubsub.rule_close),
+        ("R-DISC-SIB", "both connection-removal sites drop pub/sub, blocking and monitor registrations", rules_block.rule_disc_sib),
+    ]
+
+
 def _c17():
     return [
         ("R-AUTH-GATE", "every privileged call on the frame path is dominated by the pass edge of the authentication gate (in process_frame by dominance and non-reachability from the refuse edge; outside it nothing privileged runs per frame)", rules_auth.rule_gate),
@@ -148,6 +159,7 @@ REGISTRY = {
     "C10": _c10,
     "C11": _c11,
     "C13": _c13,
+    "C14": _c14,
     "C17": _c17,
     "C18": _c18,
 }
